@@ -52,8 +52,10 @@ func (w *waiter) do(verb, id string) error {
 	return nil
 }
 
-func (w *waiter) Wait(rs kube.ResourceList, _ time.Duration) error         { return w.do("wait", "all") }
-func (w *waiter) WaitWithJobs(rs kube.ResourceList, _ time.Duration) error { return w.do("wait", "all") }
+func (w *waiter) Wait(rs kube.ResourceList, _ time.Duration) error { return w.do("wait", "all") }
+func (w *waiter) WaitWithJobs(rs kube.ResourceList, _ time.Duration) error {
+	return w.do("wait", "all")
+}
 func (w *waiter) WaitForDelete(rs kube.ResourceList, _ time.Duration) error {
 	// not a fault point of any listed property; kept out of the visible call sequence
 	return nil
